@@ -40,6 +40,12 @@ CanonX(v) == /\ IsInt(v.num) /\ IsInt(v.den) /\ v.den.s = 0 /\ v.den.m # <<>>
 \* float: the significand carries no trailing zero digit of the base
 CanonF(B, v) == IsInt(v.sig) /\ (v.inf # 0 \/ v.sig.m = <<>> \/ DivModSmall(v.sig.m, B)[2] # 0)
 
+\* ---- plain byte conversions (little-endian order; big-endian is the reverse) ----
+\* unsigned: the bytes are the base-256 digits; signed: two's complement, negative iff the top bit of the top byte is set
+FromBytesU(b) == I(0, Norm(b))
+FromBytesI(b) == IF b = <<>> THEN IZero
+                 ELSE IF b[Len(b)] >= 128 THEN FromTwosWindow(b, TRUE) ELSE I(0, Norm(b))
+
 SameInt(a, b) == IsInt(a) /\ IsInt(b) /\ IEq(a, b)
 SameValue(ty, a, b) ==
   CASE ty \in {"U", "I"} -> SameInt(a.int, b.int)
